@@ -271,11 +271,12 @@ Record member := mkMem {
   mem_is_way : bool; mem_ref : Z; mem_role : role; mem_orient : Z;
   mem_nodes : list waynode }.               (* Member.Nodes (annotated relation members) *)
 
-(* Go maps built by a loop "m[k] = v": the last entry with a key wins *)
+(* Go maps built by a loop "m[k] = v": the last entry with a key wins: the first match in the
+   reversed list ([rev_append l []] = [rev l], linear time) *)
 Definition lookup_node (nodes : list node) (id : Z) : option node :=
-  find (fun n => node_id n =? id) (rev nodes).
+  find (fun n => node_id n =? id) (rev_append nodes []).
 Definition lookup_way (ways : list way) (id : Z) : option way :=
-  find (fun w => way_id w =? id) (rev ways).
+  find (fun w => way_id w =? id) (rev_append ways []).
 
 (* convert.go wayToLineString: the annotated location if it is not (0,0), else the node object,
    else tainted *)
